@@ -432,3 +432,8 @@ M('c12-fold-twin-generator', 'C12', TTB, "        return all(self.is_constant_at
 M('c12-twin-sym-trivial-classes', 'C12', TTB, "        for number_of_true in range(self.input_size + 1):\n\n            _iter = iter(input_iterator_with_fixed_sum(self.input_size, number_of_true))\n            value: bool = self.evaluate_at(next(_iter), output_index)", "        for number_of_true in range(1, self.input_size):\n\n            _iter = iter(input_iterator_with_fixed_sum(self.input_size, number_of_true))\n            value: bool = self.evaluate_at(next(_iter), output_index)", None)
 M('c09-endian-pad-before-reverse', 'C09', SUBF, "    if big_endian:\n        input_labels_a.reverse()\n        input_labels_b.reverse()\n\n    # pad the shorter (now little-endian) number with most significant zeros.\n    always_false = add_gate_from_tt(\n        circuit, input_labels_a[0], input_labels_b[0], \"0000\"\n    )\n    while len(input_labels_a) < len(input_labels_b):\n        input_labels_a.append(always_false)\n    while len(input_labels_a) > len(input_labels_b):\n        input_labels_b.append(always_false)\n",
   "    always_false = add_gate_from_tt(\n        circuit, input_labels_a[0], input_labels_b[0], \"0000\"\n    )\n    while len(input_labels_a) < len(input_labels_b):\n        input_labels_a.append(always_false)\n    while len(input_labels_a) > len(input_labels_b):\n        input_labels_b.append(always_false)\n\n    if big_endian:\n        input_labels_a.reverse()\n        input_labels_b.reverse()\n", 'C09.ENDIAN')
+
+# C02.ORDER
+M('c02-order-dup', 'C02', 'cirbo/core/circuit/utils.py', "        if elem not in old_list_copy:\n            raise CircuitGateIsAbsentError()\n        new_list.append(elem)\n        old_list_copy.remove(elem)", "        if elem not in old_list:\n            raise CircuitGateIsAbsentError()\n        new_list.append(elem)\n        if elem in old_list_copy:\n            old_list_copy.remove(elem)", 'C02.ORDER')
+M('c02-order-tail-lost', 'C02', 'cirbo/core/circuit/utils.py', "    for elem in old_list_copy:\n        new_list.append(elem)\n\n    return new_list", "    for elem in old_list_copy[1:]:\n        new_list.append(elem)\n\n    return new_list", 'C02.ORDER')
+M('c02-order-inputs-direct', 'C02', CIRC, "        self._inputs = order_list(inputs, self._inputs)", "        self._inputs = order_list(inputs, self._inputs) if len(inputs) < len(self._inputs) else list(inputs)", 'C02.ORDER')
